@@ -6,6 +6,7 @@ pub mod bx;
 pub mod dag;
 pub mod explore;
 pub mod maps;
+pub mod procmode;
 pub mod scalar;
 pub mod smt;
 
